@@ -940,7 +940,7 @@ func fsServerErrClass(err error) string {
 	case strings.Contains(m, "directory verification failed"):
 		return "verify"
 	}
-	return "other:" + strings.ReplaceAll(m, " ", "_")
+	return "other" // unknown text: a class only, never the text
 }
 
 var fsServerKinds = []string{"none", "dir700", "dir700", "file700", "dir755", "dir750", "dir701", "dir710", "dir600", "dir500", "dir000", "dir777", "dir1700", "dir2700", "dir4700",
